@@ -177,7 +177,7 @@ def run_model(name: str, seed: int, full: bool = False) -> dict:
                  "summary": canon(summary),
                  "extra": canon(m.extra()) if m.extra else None}
     except Exception as ex:  # an exception is an observable outcome of the run as well
-        outcome = f"exception:{type(ex).__name__}:{ex}"[:300]
+        outcome = _ADDR.sub("0x?", f"exception:{type(ex).__name__}:{ex}")[:300]
     res = {"n": len(log), "log": _dg(log), "stats": _dg(stats), "outcome": outcome}
     if full:
         res["full_log"] = log
@@ -1384,4 +1384,76 @@ def m_microservice(seed):
     sim = Simulation(sources=[src], entities=ents, end_time=Instant.from_seconds(2.0))
     ev0 = outbox.prime_poll()
     sim.schedule(ev0 if isinstance(ev0, (Event, list)) else [])
+    return Model(sim, [src, *ents])
+
+
+@model("industrial-line")
+def m_industrial(seed):
+    """Conveyor -> inspection (random pass/fail, balking queue) -> batch processor, with random breakdowns."""
+    from happysimulator import (BalkingQueue, BatchProcessor, BreakdownScheduler, ConveyorBelt, FIFOQueue,
+                                InspectionStation, Server)
+    good, scrap, done = Sink("good"), Sink("scrap"), Sink("done")
+    batch = BatchProcessor("batch", downstream=done, batch_size=4, process_time=0.03, timeout_s=0.2)
+    machine = Server("machine", concurrency=1, service_time=ExponentialLatency(0.015), downstream=batch)
+    station = InspectionStation("inspect", pass_target=machine, fail_target=scrap, inspection_time=0.01,
+                                pass_rate=0.8, policy=BalkingQueue(FIFOQueue(), balk_threshold=3,
+                                                                   balk_probability=0.5))
+    belt = ConveyorBelt("belt", downstream=station, transit_time=0.05, capacity=6)
+    breaker = BreakdownScheduler("breakdowns", target=machine, mean_time_to_failure=0.3, mean_repair_time=0.05)
+    src = Source.poisson(rate=60.0, target=belt, stop_after=1.0, name="src")
+    ents = [belt, station, machine, batch, breaker, good, scrap, done]
+    sim = Simulation(sources=[src], entities=ents, end_time=Instant.from_seconds(2.0))
+    ev0 = breaker.start_event()
+    sim.schedule(ev0 if isinstance(ev0, (Event, list)) else [])
+    return Model(sim, [src, *ents])
+
+
+@model("datastore-misc")
+def m_datastore_misc(seed):
+    """Soft-TTL cache, multi-tier cache, quorum-replicated store and a database behind string keys."""
+    from happysimulator.components.datastore import (CachedStore, ConsistencyLevel, Database, KVStore,
+                                                     LRUEviction, MultiTierCache, ReplicatedStore, SoftTTLCache)
+    origin = KVStore("origin", read_latency=0.004, write_latency=0.006)
+    soft = SoftTTLCache("soft", backing_store=origin, soft_ttl=0.05, hard_ttl=0.15, cache_capacity=6)
+    l1 = KVStore("l1", read_latency=0.0002, write_latency=0.0002, capacity=3)
+    l2 = KVStore("l2", read_latency=0.001, write_latency=0.001, capacity=6)
+    tiers = MultiTierCache("tiers", tiers=[l1, l2], backing_store=origin)
+    replicas = [KVStore(f"replica-{i}", read_latency=0.001 * (i + 1), write_latency=0.002 * (i + 1))
+                for i in range(3)]
+    repl = ReplicatedStore("replicated", replicas=replicas, read_consistency=ConsistencyLevel.QUORUM,
+                           write_consistency=ConsistencyLevel.QUORUM)
+    db = Database("db", max_connections=2, query_latency=0.004, connection_latency=0.002)
+    r = random.Random(seed)
+
+    def client(self, event):
+        k = f"sku-{r.randrange(10)}"
+        which = self.calls % 4
+        if which == 0:
+            if r.random() < 0.4:
+                yield from soft.put(k, self.calls)
+            else:
+                yield from soft.get(k)
+        elif which == 1:
+            if r.random() < 0.4:
+                yield from tiers.put(k, self.calls)
+            else:
+                yield from tiers.get(k)
+        elif which == 2:
+            if r.random() < 0.5:
+                yield from repl.put(k, self.calls)
+            else:
+                yield from repl.get(k)
+        else:
+            tx = yield from db.begin_transaction()
+            yield from tx.execute(f"UPDATE stock SET n = n - 1 WHERE sku = '{k}'")
+            if r.random() < 0.8:
+                yield from tx.commit()
+            else:
+                yield from tx.rollback()
+
+    clients = [Script(f"client-{i}", client) for i in range(3)]
+    fan = Script("fan", lambda self, ev: [self.forward(ev, clients[self.calls % 3])])
+    src = Source.poisson(rate=120.0, target=fan, event_type="op", stop_after=0.8, name="src")
+    ents = [fan, *clients, origin, soft, l1, l2, tiers, *replicas, repl, db]
+    sim = Simulation(sources=[src], entities=ents, end_time=Instant.from_seconds(2.0))
     return Model(sim, [src, *ents])
